@@ -165,6 +165,21 @@ NEEDS = {
              "uint8 fingerprints, both empty (iSIM must be 1)",
     "C15-d": "`bb run --save-tree` pickles the tree before refinement / re-clustering: needs --save-tree together "
              "with refine or recluster rounds, and the pickle to be compared with the API's tree",
+    "C02-d": "refinement from a single .npy path gathers the split members in sorted index order but keeps their "
+             "labels in member order: needs refine_inplace(path) on a largest cluster whose member list is not "
+             "increasing (after an earlier refine / recluster)",
+    "C07-d": "centroid_from_sum compares linear_sum * 2 >= n in the counters' own width: wraps in uint8 for "
+             "clusters of 128..255 members (uint16: 32768..65535) whose majority bits are set in >= 128 members",
+    "C10-d": "jt_isim_from_sum squares the column counts in uint32 when n < 65536: needs a sum of squared column "
+             "counts >= 2^32 (clusters of thousands of members)",
+    "C13-d": "C++ most-dissimilar search accumulates column sums in uint16 lanes spilled every 65536 rows: needs "
+             ">= 65536 rows with a bit set in every row of an aligned block, and outliers whose order depends on it",
+    "C14-e": "pool.map_async(...).wait() never re-raises: needs the parallel path (processes > 1) and a failure "
+             "INSIDE a worker (truncated input file, failed write of a round file)",
+    "C19-d": "_FingerprintFileSequence sorts the paths: needs a file sequence whose given order is not its "
+             "lexicographic order (unpadded part numbers >= 10, descending names, several directories)",
+    "C20-d": "the reader falls back to max-rss.txt.tmp when max-rss.txt does not exist yet: needs a read during the "
+             "monitor's very first update, between open('w') of the staging file and its flush",
 }
 EXTRA = {"C17-a": ["C10"], "C12-a": ["C07"], "C02-a": ["C12"], "C14-b": ["C05"], "C03-b": ["C07"], "C07-b": ["C03"],
          "C05-c": ["C09"], "C02-c": ["C08"], "C09-d": ["C18"], "C03-d": ["C02", "C05"],
